@@ -185,7 +185,12 @@ func VerifC16Ack(h *verifrt.H) {
 			_ = s.DeleteTreasure("k1", false)
 			s.CeaseVigil()
 		case 1:
-			s.Close()
+			// the idle-close tick of the swamp, under the assumption that the idle period has
+			// elapsed (the writer was stalled for longer than the idle timeout): its guard is
+			// "no active vigil and not closing", then Close()
+			if !s.HasActiveVigils() && !s.IsClosing() {
+				s.Close()
+			}
 		case 2:
 			s.Destroy()
 		}
@@ -202,7 +207,13 @@ func VerifC16Ack(h *verifrt.H) {
 			return
 		}
 		t, gerr := r.GetTreasure("k2")
+		if event == 2 {
+			// an explicit Destroy overlapping the write removes everything: both outcomes are serial
+			h.Cover("end")
+			return
+		}
 		h.Known("C16-auto-destroy-deletes-concurrent-write", "acknowledged-write", event == 0)
+		h.Known("C16-idle-close-between-summon-and-vigil", "acknowledged-write", event == 1)
 		h.Assert(gerr == nil, "acknowledged-write-present-after-reopen")
 		h.ClearKnown()
 		if gerr == nil {
